@@ -408,11 +408,18 @@ class _Forms:
         self.notes: list[str] = []
         self.raw_axis = False  # a direction vector that is provably NOT divided by its norm entered the formula
         self.unknown_axis = False
+        self.signed_axis = False  # the unit axis is x / |x| of the raw homogeneous coordinates: it flips with the sign of the representative
 
     def unit(self, e: ast.expr) -> str:
         """'unit' | 'raw' | 'unknown' for a direction vector expression"""
         e = strip_array(e)
         if isinstance(e, ast.BinOp) and isinstance(e.op, ast.Div) and call_name(e.right) == "norm" and e.right.args and same(strip_array(e.right.args[0]), strip_array(e.left)):
+            x = strip_array(e.left)
+            while isinstance(x, (ast.Attribute, ast.Subscript)):
+                if isinstance(x, ast.Attribute) and x.attr == "array":
+                    # x / |x| of the coordinates AS GIVEN: a unit vector, but sign(lambda) times the direction for the representative lambda x
+                    self.signed_axis = True
+                x = x.value
             return "unit"
         if isinstance(e, ast.BinOp) and isinstance(e.op, ast.Mult):
             for vec, fac in ((e.left, e.right), (e.right, e.left)):
@@ -546,6 +553,10 @@ def rule_rotation(run: Run, prog: Program) -> int:
                     "not orthogonal (the a a^T term is scaled by r^2, the cross-product term by r)", loc)
         elif forms.unknown_axis:
             run.add("E18.rot", fn.short, label, UNDECIDED, "the normalisation of the axis direction is not read", loc)
+        elif forms.signed_axis and not (got - base).is_zero():
+            run.add("E18.rot", fn.short, label, VIOLATION,
+                    "the unit axis is x / |x| of the homogeneous coordinates as given (`.array`), not of the dehomogenised ones: for the representative -x of the same "
+                    "axis point it is the opposite vector, and the cross-product term sin*K, which is odd in the axis, turns the rotation the other way", loc)
         elif (got - base - s * k).is_zero() or (got - base + s * k).is_zero():
             run.add("E18.rot", fn.short, label, PROVEN, "cos*I + sin*K + (1 - cos)*a a^T with a unit axis a", loc)
         else:
